@@ -95,8 +95,9 @@ def history_stage(rep, proof_ok, sc, lib, prop, drv, harness_src, gen, tier, see
     unconfirmed = 0
     confirmed = []
     for r in monfail:
-        only_stuck = r["status"] == "MONFAIL" and r["model_line"].startswith("OK") and \
-            all(f.startswith("status=STUCK") or f.endswith("not-finished") for f in r["mon_line"].split()[1:])
+        only_stuck = (r["status"] == "MONFAIL" and r["model_line"].startswith("OK") and
+                      all(f.startswith("status=STUCK") or f.endswith("not-finished") for f in r["mon_line"].split()[1:])) or \
+                     (r["status"] == "CRASH" and "rc=-9" in r["mon_line"] and r["model_line"].startswith("OK"))
         if not only_stuck:
             confirmed.append(r)
             continue
@@ -206,7 +207,8 @@ def run_sched_property(prop, prop_files, targets, name_re, gen, tier, seed, repl
 
 
 def run_history_property(prop, prop_file, targets, drv, harness_src, gen, tier, seed, replay=None,
-                         rule="", extra_assumptions=(), nontrivial=None, search_rounds=2, stage_extra=None):
+                         rule="", extra_assumptions=(), nontrivial=None, search_rounds=2, stage_extra=None,
+                         known_patterns=None):
     """gen(rng, tier) -> (list of scenario texts, stats)"""
     rep = vlib.Report(prop, tier, seed)
     rep.assumptions += list(extra_assumptions) + [
@@ -216,91 +218,15 @@ def run_history_property(prop, prop_file, targets, drv, harness_src, gen, tier, 
     proof = vlib.proof_stage(prop_file, targets)
     if not proof["ok"]:
         vlib.log("proof stage failed:\n" + proof["log"][-3000:])
-    okd, drv_exe, derr = vlib.build_driver(drv)
-    if not okd:
-        rep.violation("driver-build.txt", "model driver does not build:\n" + derr + "\n" + proof["log"][-3000:], found_input=False)
-        return rep.finish(proof, {"evaluations": 0})
     with vlib.Scratch(prop) as sc:
         vlib.copy_repo_src(sc)
         okl, lib, lerr = vlib.get_lib(sc)
         if not okl:
             rep.violation("repo-build.txt", "the library does not compile with -D%s:\n%s" % (vlib.GUARD, lerr), found_input=False)
             return rep.finish(proof, {"evaluations": 0})
-        hexe = os.path.join(sc, "harness_" + drv)
-        okh, herr = vlib.build_harness(sc, os.path.join(vlib.HARNESS, harness_src), hexe, lib=lib, san=False, opt="-O1")
-        if not okh:
-            rep.violation("harness-build.txt", "harness %s does not compile against /repo's working tree:\n%s" % (harness_src, herr), found_input=False)
-            return rep.finish(proof, {"evaluations": 0})
-        if replay:
-            payload = json.load(open(replay))
-            scenarios, stats = payload.get("scenarios", []), {"replay": replay}
-        else:
-            rng = random.Random(seed)
-            corpus = [open(os.path.join(vlib.VERIF, "corpus", prop, f)).read()
-                      for f in sorted(os.listdir(os.path.join(vlib.VERIF, "corpus", prop)))] \
-                if os.path.isdir(os.path.join(vlib.VERIF, "corpus", prop)) else []
-            scenarios, stats = gen(rng, tier)
-            scenarios = corpus + scenarios
-            stats["corpus"] = len(corpus)
-        res = run_scenarios(hexe, drv_exe, scenarios, sc)
-        nev = 0
-        for r in res:
-            if r["model_line"].startswith("OK"):
-                try:
-                    nev += int(r["model_line"].split("events=")[1].split()[0])
-                except Exception:
-                    pass
-        by = {}
-        for r in res:
-            by.setdefault(r["status"], []).append(r)
-        monfail = by.get("MONFAIL", []) + by.get("CRASH", [])
-        mism = by.get("MISMATCH", []) + by.get("DRIVER", [])
-        searched = 0
-        if (mism or not proof["ok"]) and not monfail and not replay:
-            # failing-input search: same scenarios + fresh ones under targeted perturbation
-            kinds = set()
-            for r in mism:
-                for w in r["model_line"].split():
-                    if w.startswith("event="):
-                        kinds.add(KIND_CODES.get(w[6:], -1))
-            kinds.discard(-1)
-            for rnd in range(search_rounds):
-                for k in (sorted(kinds) or [3]):
-                    extra, _ = gen(random.Random(seed * 1000 + rnd), tier)
-                    scs = [r["scenario"] for r in mism][:10] + extra[:max(10, len(extra) // 2)]
-                    r2 = run_scenarios(hexe, drv_exe, scs, sc, tag="search%d_%d" % (rnd, k),
-                                       env={"VH_TARGET_KIND": str(k), "VH_TARGET_US": "300"})
-                    searched += len(scs)
-                    monfail += [r for r in r2 if r["status"] in ("MONFAIL", "CRASH")]
-                if monfail:
-                    break
-        cov = {"evaluations": len(scenarios), "traces_validated_against_impl": len(by.get("OK", [])),
-               "events_replayed": nev, "distinct_nontrivial": len(set(s for s in scenarios if (nontrivial(s) if nontrivial else True))),
-               "rule": rule, "samples": scenarios[:2], "generator_stats": stats,
-               "history_mismatches": len(mism), "monitor_failures": len(monfail), "search_runs": searched,
-               "disagreements_checked": len(scenarios)}
+        cov = history_stage(rep, proof["ok"], sc, lib, prop, drv, harness_src, gen, tier, seed, replay=replay, rule=rule,
+                            nontrivial=nontrivial, search_rounds=search_rounds, proof_log=proof["log"], prop_file=prop_file,
+                            known_patterns=known_patterns)
         if stage_extra:
             stage_extra(rep, sc, lib, cov, tier, seed)
-        if monfail:
-            r = monfail[0]
-            rep.violation("monitor-%d.json" % seed,
-                          {"kind": "history", "property": prop, "seed": seed, "scenarios": [r["scenario"]],
-                           "monitor": r["mon_line"], "model": r["model_line"],
-                           "history": history_excerpt(r["history_path"], n=400),
-                           "explanation": "a property monitor failed on a real execution of this scenario (history attached)"},
-                          found_input=True, text=r["mon_line"] + " | " + r["model_line"])
-        elif mism:
-            r = mism[0]
-            at = None
-            for w in r["model_line"].split():
-                if w.startswith("line="):
-                    at = int(w[5:])
-            rep.violation("conformance-%d.json" % seed,
-                          {"kind": "history", "property": prop, "seed": seed, "scenarios": [r["scenario"]],
-                           "broken": "history conformance %s <-> LTS %s: the implementation performed an atomic action the model does not allow" % (harness_src, drv),
-                           "first_disagreement": r["model_line"], "history_around": history_excerpt(r["history_path"], at),
-                           "mismatching_scenarios": len(mism), "search_runs_without_monitor_failure": searched},
-                          found_input=False, text=r["model_line"])
-        elif not proof["ok"]:
-            rep.violation("proof-%d.txt" % seed, "proof obligation(s) of %s no longer check:\n%s" % (prop_file, proof["log"][-3000:]), found_input=False)
     return rep.finish(proof, cov)
